@@ -271,3 +271,7 @@ func (sq *Queue) VerifSetUsage(pending, allocated *resources.Resource) {
 	sq.pending = pending
 	sq.allocatedResource = allocated
 }
+
+// VerifInitQueueSnapshots takes the queue snapshots (victim collection) of the preemptor now, as the first step of
+// TryPreemption would; a later TryPreemption works on these snapshots.
+func (p *Preemptor) VerifInitQueueSnapshots() { p.initQueueSnapshots() }
